@@ -25,7 +25,9 @@ type SyncCase struct {
 	Notify    bool         `json:"notify,omitempty"`
 	Unpriv    bool         `json:"unpriv,omitempty"`    // receiver (and whole transfer) runs as uid 1000
 	FilterUID bool         `json:"filteruid,omitempty"` // source owned by 4242:4242, receiver Filter maps ownership to 0:0
-	MemEOF    bool         `json:"memeof,omitempty"`    // in-memory source whose readers return the last bytes together with io.EOF
+	// FilterShift: source owned by 7:8, receiver Filter ADDS 1000 to both ids (a filter that is not idempotent)
+	FilterShift bool `json:"filtershift,omitempty"`
+	MemEOF      bool `json:"memeof,omitempty"` // in-memory source whose readers return the last bytes together with io.EOF
 	// MemResize: in-memory source whose files changed size between listing and reading: readers deliver
 	// len+MemResize bytes (negative: the tail is missing; -1<<30: nothing at all)
 	MemResize int `json:"memresize,omitempty"`
@@ -100,6 +102,13 @@ func (d *syncDirs) transferFault(c SyncCase, srcTree fsmodel.Tree, fault xfer.Fa
 		}
 		c.Mem = true
 	}
+	if c.FilterShift {
+		srcTree = srcTree.Clone()
+		for i := range srcTree {
+			srcTree[i].UID, srcTree[i].GID = 7, 8
+		}
+		c.Mem = true
+	}
 	if c.Mem {
 		m := memfs.New(srcTree)
 		m.EOFWithData = c.MemEOF
@@ -112,6 +121,11 @@ func (d *syncDirs) transferFault(c SyncCase, srcTree fsmodel.Tree, fault xfer.Fa
 		if c.FilterUID {
 			for i := range o.View {
 				o.View[i].UID, o.View[i].GID = 0, 0
+			}
+		}
+		if c.FilterShift {
+			for i := range o.View {
+				o.View[i].UID, o.View[i].GID = 1007, 1008
 			}
 		}
 	} else {
@@ -128,6 +142,12 @@ func (d *syncDirs) transferFault(c SyncCase, srcTree fsmodel.Tree, fault xfer.Fa
 	if c.FilterUID {
 		opt.Filter = func(p string, st *types.Stat) bool {
 			st.Uid, st.Gid = 0, 0
+			return true
+		}
+	}
+	if c.FilterShift {
+		opt.Filter = func(p string, st *types.Stat) bool {
+			st.Uid, st.Gid = st.Uid+1000, st.Gid+1000
 			return true
 		}
 	}
